@@ -6,14 +6,16 @@ import RrModel.Exec
 namespace Props.C20Exec
 open Go Model
 
-/-- hypotheses under which the copy rule must be invisible: its request can be built and parsed
-    (class of finding C20-a excluded), and its destination host is not also a destination of the
-    proxied request (main rule or a retry_rule fallback) — otherwise the scripted origin's per-host
-    connection-failure counter is shared, which is an artefact of the fault model, not of rrrouter -/
+/-- hypotheses under which the copy rule must be invisible: its destination host `hc` (its target
+    parses) is not also a destination of the proxied request (main rule or a retry_rule fallback) —
+    otherwise the scripted origin's per-host connection-failure counter is shared, which is an
+    artefact of the fault model, not of rrrouter.  After the repair of finding C20-a nothing is
+    assumed about whether the copy request can be built; `noPanic` excludes only the Go run-time
+    panic `secrets[0]` on an empty, non-nil secret list. -/
 structure Separate (cfg : ExecCfg) (q : Query) (m : Bytes) (chain : List Rule)
     (main : Option (Rule × Bytes × Option Nat)) (copy : Rule × Bytes) (hc : Bytes) : Prop where
   parses : destHost copy.2 = some hc
-  builds : cfg.build copy.1.internal = none
+  noPanic : cfg.build copy.1.internal ≠ some .panicNoSecrets
   notMain : ∀ x, main = some x → destHost x.2.1 ≠ some hc
   notFallback : ∀ rr ∈ chain, ∀ x, fallbackMatch q m rr = some x → destHost x.2.1 ≠ some hc
 
@@ -35,12 +37,5 @@ def CopyInvisibleContacts : Prop :=
     Separate cfg q m chain main copy hc →
     ((routeRequest cfg q m chain main (some copy) { remaining := b }).1.contacts.filter (·.host ≠ hc))
       = (routeRequest cfg q m chain main none { remaining := b }).1.contacts
-
-/-- the excluded class is real (finding C20-a): when only the COPY request cannot be built the
-    client gets that error although the proxied request alone would have been fine -/
-def CopyBuildErrorVisible : Prop :=
-  ∃ (cfg : ExecCfg) (q : Query) (m b : Bytes) (main : Option (Rule × Bytes × Option Nat)) (copy : Rule × Bytes),
-    (routeRequest cfg q m [] main (some copy) { remaining := b }).2 matches .userError 407 _ ∧
-    (routeRequest cfg q m [] main none { remaining := b }).2 matches .response _ _
 
 end Props.C20Exec
